@@ -764,3 +764,38 @@ Proof.
     repeat (destruct Hl as [<-|Hl]; [split; [vm_compute; reflexivity|vm_compute; lia]|]). destruct Hl.
   - split; vm_compute; reflexivity.
 Qed.
+
+(* Unequal weights, the "within d" inequality (tent slope against the noise at both ends).  Weights anywhere in
+   [wmin, wmax] with 0 < wmin (the property's weights: wmin = 1/2, wmax = 1).  Inside its support the weighted
+   tent of C11_clean_step_weighted is at most  1 - |k - t| wmin / (h wmax)  (each bin between k and t carries at
+   least wmin of a window whose weight is at most h wmax), the noise moves a value by at most 2 eps sqrt(h/2), so
+     4 h eps wmax < d D wmin   (1 <= d <= h)
+   puts every position at distance >= d strictly below the value at t: the maximum of |conv| lies within d - 1
+   bins of t.  With weights in [1/2, 1]: 8 h eps < d D -- level 1 (h = 2), d = 1: eps < D / 16 gives the maximum
+   exactly at t; level 5 (h = 32), d = 6 (within 5 bins): eps < 3 D / 128. *)
+From CNV Require Import Proofs.HaarNoiseW.
+Theorem C11_noise_peak_within_d_weighted :
+  forall (a b : Q) (t n : nat) (w sg : list Q) (eps : Q) (h : Z) (scale wmin wmax : Q) (d : Z),
+  noise_within eps (step_signal a b t n) sg -> length w = n -> 0 < wmin -> weights_between wmin wmax w ->
+  0 < scale -> (1 <= h <= Z.of_nat t)%Z -> (Z.of_nat t + h <= Z.of_nat n)%Z ->
+  (1 <= d <= h)%Z -> 4 * inject_Z h * eps * wmax < inject_Z d * Qabs (b - a) * wmin ->
+  forall k, (0 <= k < Z.of_nat n)%Z -> (d <= Z.abs (k - Z.of_nat t))%Z ->
+    Qabs (qnth (haar_conv sg (Some w) h scale) k) < Qabs (qnth (haar_conv sg (Some w) h scale) (Z.of_nat t)).
+Proof. exact noisy_step_weighted_d. Qed.
+
+(* the slope of the clean weighted tent on its own *)
+Theorem C11_weighted_tent_slope : forall (w : list Q) (t n : nat) (h : Z) (wmin wmax : Q),
+  length w = n -> 0 < wmin -> weights_between wmin wmax w ->
+  (1 <= h <= Z.of_nat t)%Z -> (Z.of_nat t + h <= Z.of_nat n)%Z ->
+  forall k, (0 <= k < Z.of_nat n)%Z ->
+  0 <= weighted_tent w (Z.of_nat t) h k /\
+  weighted_tent w (Z.of_nat t) h k
+  <= 1 - inject_Z (Z.min h (Z.abs (k - Z.of_nat t))) * (wmin / (inject_Z h * wmax)).
+Proof. exact wtent_bounds. Qed.
+
+Example C11_noise_weighted_example :
+  weights_between (1 # 2) 1 [1; 1 # 2; 3 # 4; 1] /\ 4 * inject_Z 2 * (1 # 100) * 1 < inject_Z 1 * Qabs (1 - 0) * (1 # 2).
+Proof.
+  split; [|vm_compute; reflexivity].
+  unfold weights_between. repeat (apply Forall_cons; [split; vm_compute; discriminate|]). apply Forall_nil.
+Qed.
